@@ -244,10 +244,7 @@ func checkC08(w *Worker) {
 		runOne(x, files, cmd, "unreadable")
 	})
 	// ---- cycles of every length <= 4 and deep chains against every depth limit, incl. an absurd one
-	depths := []string{"1", "2", "3", "10", "100000"}
-	if w.Tier == "thorough" {
-		depths = append(depths, "2000000000")
-	}
+	depths := []string{"1", "2", "3", "10", "100000", "2000000000"}
 	w.Explore("cycles-and-depth-limits", ExploreOpts{ShardDepth: 3, NoAudit: true}, func(x *Exec) {
 		cyc := 1 + x.Choose(4, "input:cycle-length")
 		tail := x.Choose(3, "input:tail-length") // chain leading into the cycle
